@@ -3,6 +3,8 @@ package main
 import (
 	"slices"
 	"sort"
+
+	"github.com/emirpasic/gods/v2/containers"
 )
 
 // C13: set algebra is exact and free of side effects. Two sets a and b of the same kind (and, for
@@ -84,6 +86,35 @@ func (s *setSubj[T]) Algebra(otherS Subject, op Op, o *Oracle) bool {
 		}
 	}
 	ascending("as returned")
+	// the result is a set like one made by the constructor: it iterates in both directions and serialises
+	// like a fresh set holding the same members
+	if s.cfg.Kind != "hashset" {
+		vals := res.Values()
+		if it := setIter(res); it != nil {
+			var fwd []T
+			for it.Next() {
+				fwd = append(fwd, it.Value())
+			}
+			if joinS(fwd, s.d.Str) != joinS(vals, s.d.Str) {
+				o.Fail("C13", "result-iteration", "%s: the result iterates as %s, Values() %s", op.N, joinS(fwd, s.d.Str), joinS(vals, s.d.Str))
+			}
+			if rit, ok := it.(containers.ReverseIteratorWithIndex[T]); ok {
+				var back []T
+				for rit.End(); rit.Prev(); {
+					back = append(back, rit.Value())
+				}
+				slices.Reverse(back)
+				if joinS(back, s.d.Str) != joinS(vals, s.d.Str) {
+					o.Fail("C13", "result-iteration", "%s: the result iterates backwards as (reversed) %s, Values() %s", op.N, joinS(back, s.d.Str), joinS(vals, s.d.Str))
+				}
+			}
+		}
+		if s.cfg.Elem != "float" {
+			if g, w := jsonText(res.(jsonIO)), jsonText(recv.make(vals...).(jsonIO)); g != w {
+				o.Fail("C13", "result-tojson", "%s: the result serialises as %s, a fresh set holding the same members as %s", op.N, g, w)
+			}
+		}
+	}
 	if a2, b2 := s.ObsJSON(), other.ObsJSON(); a2 != obsA || b2 != obsB {
 		o.Fail("C13", "operand-changed", "%s changed an operand:\n a before %s\n a after  %s\n b before %s\n b after  %s", op.N, obsA, a2, obsB, b2)
 		return false
